@@ -182,6 +182,7 @@ class Spec(SeqSpec):
         else:
             self.depth = 2 if tier == 'quick' else 3
             self.max_variants = 0 if tier == 'quick' else 1
+            self.horizon = 300        # one state check applies a few thousand damages
 
     def roots(self):
         if self.tier == 'quick' or self.part == 'b':
